@@ -228,9 +228,14 @@ class DiagLinearOperator(TriangularLinearOperator):
         right_tensor: Union[Float[Tensor, "... N P"], Float[Tensor, " N"]],
         left_tensor: Optional[Float[Tensor, "... O N"]] = None,
     ) -> Union[Float[Tensor, "... N P"], Float[Tensor, "... N"], Float[Tensor, "... O P"], Float[Tensor, "... O"]]:
+        is_vector = right_tensor.ndim == 1
+        if is_vector:
+            right_tensor = right_tensor.unsqueeze(-1)
         res = self.inverse()._matmul(right_tensor)
         if left_tensor is not None:
             res = left_tensor @ res
+        if is_vector:
+            res = res.squeeze(-1)
         return res
 
     def solve_triangular(
